@@ -6,6 +6,7 @@ import (
 	"fmt"
 	"io"
 	"net"
+	"strings"
 	"testing"
 	"time"
 
@@ -90,6 +91,56 @@ func c18Steer(payload []byte, src, dst [4]byte, sport, dport int, target uint16)
 	return p
 }
 
+// c18FrameCheck judges one emitted frame: parsed by the independent RFC 791/768 reader, every field as requested,
+// both checksums recomputed. It returns the UDP checksum the frame should carry.
+func c18FrameCheck(frame []byte, src [4]byte, sport int, dst4 [4]byte, dport int, payload []byte, maker bool) (uint16, *obs.Fail) {
+	var want uint16
+	fr, why := refip.Parse(frame)
+	if why != "" {
+		return 0, obs.Failf("C18/frame-malformed", "a well-formed IPv4/UDP frame", "%s: %x", why, clipb(frame))
+	}
+	bad := func(field string, w, g any) *obs.Fail {
+		return obs.Failf("C18/frame/"+field, fmt.Sprintf("%s = %v", field, w), "%v", g)
+	}
+	switch {
+	case fr.IHL != 5:
+		return 0, bad("ihl", 5, fr.IHL)
+	case fr.TotalLen != 28+len(payload):
+		return 0, bad("total-length", 28+len(payload), fr.TotalLen)
+	case len(frame) != fr.TotalLen:
+		return 0, bad("frame-length", fr.TotalLen, len(frame))
+	case fr.TTL == 0:
+		return 0, bad("ttl", "non-zero", fr.TTL)
+	case fr.FlagsFrag&0x3fff != 0:
+		return 0, bad("fragment", "unfragmented", fr.FlagsFrag)
+	case fr.Src != src:
+		return 0, bad("src", src, fr.Src)
+	case fr.Dst != dst4:
+		return 0, bad("dst", dst4, fr.Dst)
+	case fr.SrcPort != sport:
+		return 0, bad("sport", sport, fr.SrcPort)
+	case fr.DstPort != dport:
+		return 0, bad("dport", dport, fr.DstPort)
+	case fr.UDPLen != 8+len(payload):
+		return 0, bad("udp-length", 8+len(payload), fr.UDPLen)
+	case !bytes.Equal(fr.Payload, payload):
+		return 0, bad("payload", hx(clipb(payload)), hx(clipb(fr.Payload)))
+	}
+	// the deprecated maker leaves both checksum fields zero for the kernel / the hardware to fill in (RFC 768: a zero
+	// UDP checksum field means "none"); a UDP checksum it does write goes out as it is and must verify
+	if !maker || fr.UDPChecksum != 0 {
+		if !maker && !refip.HeaderChecksumOK(frame) {
+			return 0, obs.Failf("C18/ip-checksum", "header checksum verifies (RFC 1071)", "field %04x over %x", fr.HdrChecksum, frame[:20])
+		}
+		want = refip.UDPChecksum(frame)
+		// 0xFFFF is the transmitted form of a computed zero; a zero field ("no checksum") is tolerated only there
+		if fr.UDPChecksum != want && !(want == 0xffff && fr.UDPChecksum == 0) {
+			return 0, obs.Failf("C18/udp-checksum", fmt.Sprintf("%04x (RFC 768)", want), "%04x (payload %d bytes)", fr.UDPChecksum, len(payload))
+		}
+	}
+	return want, nil
+}
+
 var c18w = newChk("C18", "write-frame",
 	"payloads of every length 0..64 and boundary-biased lengths up to 1500 (patterns all-0xFF, all-0x00, carry stressors, random) × source/destination addresses and ports written through the raw broadcast connection; the frame is parsed by the independent RFC 791/768 reader and both checksums are recomputed per RFC 1071/768; non-trivial = payload non-empty; distinct by hash of the frame",
 	func(rec *obs.Rec, c c18Write) *obs.Fail {
@@ -149,54 +200,17 @@ var c18w = newChk("C18", "write-frame",
 			}
 			frame = raw.writes[0].b
 		}
-		fr, why := refip.Parse(frame)
-		if why != "" {
-			return obs.Failf("C18/frame-malformed", "a well-formed IPv4/UDP frame", "%s: %x", why, clipb(frame))
+		want, fl := c18FrameCheck(frame, src, c.BoundPt, dst4, c.DstPort, c.Payload, c.UseMaker)
+		if fl != nil {
+			return fl
 		}
-		bad := func(field string, w, g any) *obs.Fail {
-			return obs.Failf("C18/frame/"+field, fmt.Sprintf("%s = %v", field, w), "%v", g)
+		if want == 0xffff {
+			rec.Class("udp checksum computes to zero")
 		}
-		switch {
-		case fr.IHL != 5:
-			return bad("ihl", 5, fr.IHL)
-		case fr.TotalLen != 28+len(c.Payload):
-			return bad("total-length", 28+len(c.Payload), fr.TotalLen)
-		case len(frame) != fr.TotalLen:
-			return bad("frame-length", fr.TotalLen, len(frame))
-		case fr.TTL == 0:
-			return bad("ttl", "non-zero", fr.TTL)
-		case fr.FlagsFrag&0x3fff != 0:
-			return bad("fragment", "unfragmented", fr.FlagsFrag)
-		case fr.Src != src:
-			return bad("src", src, fr.Src)
-		case fr.Dst != dst4:
-			return bad("dst", dst4, fr.Dst)
-		case fr.SrcPort != c.BoundPt:
-			return bad("sport", c.BoundPt, fr.SrcPort)
-		case fr.DstPort != c.DstPort:
-			return bad("dport", c.DstPort, fr.DstPort)
-		case fr.UDPLen != 8+len(c.Payload):
-			return bad("udp-length", 8+len(c.Payload), fr.UDPLen)
-		case !bytes.Equal(fr.Payload, c.Payload):
-			return bad("payload", hx(clipb(c.Payload)), hx(clipb(fr.Payload)))
-		}
-		if !c.UseMaker {
-			if !refip.HeaderChecksumOK(frame) {
-				return obs.Failf("C18/ip-checksum", "header checksum verifies (RFC 1071)", "field %04x over %x", fr.HdrChecksum, frame[:20])
-			}
-			want := refip.UDPChecksum(frame)
-			// 0xFFFF is the transmitted form of a computed zero; a zero field ("no checksum") is tolerated only there
-			if fr.UDPChecksum != want && !(want == 0xffff && fr.UDPChecksum == 0) {
-				return obs.Failf("C18/udp-checksum", fmt.Sprintf("%04x (RFC 768)", want), "%04x (payload %d bytes)", fr.UDPChecksum, len(c.Payload))
-			}
-			if want == 0xffff {
-				rec.Class("udp checksum computes to zero")
-			}
-			if c.Steer > 0 && len(c.Payload) >= 2 {
-				rec.Class("checksum steered to a chosen value")
-				if t := c18Targets[(c.Steer-1)%len(c18Targets)]; want != t && !(t == 0 && want == 0xffff) {
-					return obs.Failf("C18/harness", fmt.Sprintf("steered checksum %04x", t), "%04x", want)
-				}
+		if c.Steer > 0 && len(c.Payload) >= 2 && want != 0 {
+			rec.Class("checksum steered to a chosen value")
+			if t := c18Targets[(c.Steer-1)%len(c18Targets)]; want != t && !(t == 0 && want == 0xffff) {
+				return obs.Failf("C18/harness", fmt.Sprintf("steered checksum %04x", t), "%04x", want)
 			}
 		}
 		if len(c.Payload)%2 == 1 {
@@ -237,10 +251,11 @@ func TestC18_WriteLengths(t *testing.T) {
 				{BoundIP: []byte{192, 168, 1, 7}, BoundPt: 68, DstIP: []byte{10, 0, 0, 1}, DstPort: 67, Dst16: true},
 				{BoundIP: []byte{255, 255, 255, 255}, BoundPt: 65535, DstIP: []byte{255, 255, 255, 255}, DstPort: 65535},
 				{BoundIP: []byte{10, 1, 2, 3}, BoundPt: 1068, DstIP: []byte{10, 0, 0, 1}, DstPort: 1067, UseMaker: true},
+				{BoundIP: []byte{250, 10, 250, 20}, BoundPt: 65000, DstIP: []byte{255, 255, 255, 255}, DstPort: 65535, UseMaker: true},
 			} {
 				b.Payload = p
 				c18w.one(t, b)
-				if !b.UseMaker && (n < 8 || n%64 == 0) {
+				if n < 8 || n%64 == 0 {
 					for sa := 1; sa <= 2*len(c18SumTargets); sa++ {
 						for _, hi := range [][]byte{{250, 10, 250, 20}, {10, 0, 0, 1}, {255, 255, 255, 255}} {
 							x := b
@@ -249,7 +264,7 @@ func TestC18_WriteLengths(t *testing.T) {
 						}
 					}
 				}
-				if n >= 2 && !b.UseMaker {
+				if n >= 2 {
 					for st := 1; st <= len(c18Targets); st++ {
 						b.Steer = st
 						c18w.one(t, b)
@@ -304,7 +319,7 @@ type c18Frame struct {
 	Cut     int     `json:"cut"`
 	SrcIP   obs.Hex `json:"src"`
 	SrcPort int     `json:"sport"`
-	Other   bool    `json:"other"` // other port / other address
+	Other   bool    `json:"other"`        // other port / other address
 	DF      bool    `json:"df,omitempty"` // the Don't-Fragment bit is set (a complete datagram all the same)
 }
 
@@ -561,3 +576,141 @@ func TestC18_ReadTruncations(t *testing.T) {
 		}
 	}
 }
+
+// --- several datagrams through ONE connection -----------------------------------
+
+type c18Dest struct {
+	IP    obs.Hex `json:"ip"`
+	Port  int     `json:"port"`
+	Dst16 bool    `json:"dst_16byte,omitempty"`
+}
+
+type c18Seq struct {
+	BoundIP obs.Hex   `json:"bound_ip"`
+	BoundPt int       `json:"bound_port"`
+	Dests   []c18Dest `json:"dests"` // destination of each write, in order
+	Lens    []int     `json:"lens"`  // payload length of each write
+	Reuse   bool      `json:"reuse"` // the caller reuses one payload buffer for all writes
+	Fill    byte      `json:"fill"`  // payload octets are Fill + position + index of the write
+}
+
+// c18seq: a connection is written to many times in its life, to the same and to other destinations. Every frame is
+// judged on its own, exactly like a single write: what was sent before (another port on the same host, another host
+// on the same port, a longer or shorter payload) changes nothing.
+var c18seq = newChk("C18", "write-sequence",
+	"sequences of 2..8 WriteTo calls on ONE raw broadcast connection with destinations drawn from a small pool that coincides in address or in port (same host other port, other host same port, 4- and 16-byte forms, broadcast), payloads of changing length in a fresh or a reused buffer; every emitted frame is parsed by the independent reader and both checksums are recomputed; all ordered pairs and triples over the pool are enumerated; non-trivial = two consecutive writes differ in destination; distinct by case hash",
+	func(rec *obs.Rec, c c18Seq) *obs.Fail {
+		raw := &scriptRaw{}
+		bound := &net.UDPAddr{Port: c.BoundPt}
+		var src [4]byte
+		if len(c.BoundIP) == 4 {
+			bound.IP = net.IP(append([]byte{}, c.BoundIP...))
+			copy(src[:], c.BoundIP)
+		}
+		conn := nclient4.NewBroadcastUDPConn(raw, bound)
+		buf := make([]byte, 1500)
+		var sent [][]byte
+		for i, d := range c.Dests {
+			n := c.Lens[i%len(c.Lens)]
+			p := make([]byte, n)
+			if c.Reuse {
+				p = buf[:n]
+			}
+			for k := range p {
+				p[k] = c.Fill + byte(k*7) + byte(i)
+			}
+			sent = append(sent, append([]byte{}, p...))
+			ip := net.IP(append([]byte{}, d.IP...))
+			if d.Dst16 {
+				ip = net.IPv4(d.IP[0], d.IP[1], d.IP[2], d.IP[3])
+			}
+			if _, err := conn.WriteTo(p, &net.UDPAddr{IP: ip, Port: d.Port}); err != nil {
+				return obs.Failf("C18/sequence/write-error", "write succeeds", "write %d: %v", i, err)
+			}
+		}
+		if len(raw.writes) != len(c.Dests) {
+			return obs.Failf("C18/sequence/write-count", fmt.Sprintf("%d frames", len(c.Dests)), "%d", len(raw.writes))
+		}
+		changes := false
+		for i, d := range c.Dests {
+			var dst4 [4]byte
+			copy(dst4[:], d.IP)
+			if _, fl := c18FrameCheck(raw.writes[i].b, src, c.BoundPt, dst4, d.Port, sent[i], false); fl != nil {
+				fl.Sig = strings.Replace(fl.Sig, "C18/", "C18/sequence/", 1)
+				fl.Got = fmt.Sprintf("write %d of %d: %s", i, len(c.Dests), fl.Got)
+				return fl
+			}
+			if i > 0 && (d.Port != c.Dests[i-1].Port || !bytes.Equal(d.IP, c.Dests[i-1].IP)) {
+				changes = true
+			}
+		}
+		if changes {
+			rec.NonTrivial(obs.HashJSON(c), func() any { return c })
+		}
+		return nil
+	})
+
+var c18Pool = []c18Dest{
+	{IP: []byte{10, 0, 0, 1}, Port: 67},
+	{IP: []byte{10, 0, 0, 1}, Port: 6767},
+	{IP: []byte{10, 0, 0, 1}, Port: 67, Dst16: true},
+	{IP: []byte{10, 0, 0, 2}, Port: 67},
+	{IP: []byte{255, 255, 255, 255}, Port: 67},
+	{IP: []byte{255, 255, 255, 255}, Port: 68},
+	{IP: []byte{10, 0, 1, 0}, Port: 6767},
+}
+
+func TestC18_WriteSequences(t *testing.T) {
+	for _, bound := range []c18Seq{{BoundPt: 68}, {BoundIP: []byte{192, 168, 1, 7}, BoundPt: 68}, {BoundIP: []byte{255, 255, 255, 255}, BoundPt: 65535}} {
+		for _, lens := range [][]int{{300}, {0, 1, 2}, {548, 3, 301}} {
+			for a := range c18Pool {
+				for b := range c18Pool {
+					c := bound
+					c.Lens, c.Dests, c.Reuse, c.Fill = lens, []c18Dest{c18Pool[a], c18Pool[b]}, (a+b)%2 == 0, byte(a*16+b)
+					c18seq.one(t, c)
+					for x := range c18Pool {
+						c.Dests = []c18Dest{c18Pool[a], c18Pool[b], c18Pool[x]}
+						c18seq.one(t, c)
+					}
+				}
+			}
+		}
+	}
+	c18seq.rec.Class("all ordered pairs and triples over the destination pool")
+}
+
+func genC18Seq() *rapid.Generator[c18Seq] {
+	return rapid.Custom(func(t *rapid.T) c18Seq {
+		c := c18Seq{BoundPt: rapid.SampledFrom([]int{68, 68, 0, 65535, 1068}).Draw(t, "sport"), Reuse: rapid.Bool().Draw(t, "reuse"), Fill: rapid.Byte().Draw(t, "fill")}
+		if rapid.Bool().Draw(t, "bound") {
+			c.BoundIP = rapid.SliceOfN(rapid.Byte(), 4, 4).Draw(t, "src")
+		}
+		// a pool of 2..4 destinations derived from one another: same host other port, other host same port
+		base := c18Dest{IP: rapid.SliceOfN(rapid.Byte(), 4, 4).Draw(t, "ip"), Port: rapid.IntRange(0, 65535).Draw(t, "port")}
+		pool := []c18Dest{base}
+		for k := rapid.IntRange(1, 3).Draw(t, "npool"); k > 0; k-- {
+			d := c18Dest{IP: append([]byte{}, base.IP...), Port: base.Port}
+			switch rapid.IntRange(0, 4).Draw(t, "derive") {
+			case 0:
+				d.Port = rapid.IntRange(0, 65535).Draw(t, "port2")
+			case 1:
+				d.IP[rapid.IntRange(0, 3).Draw(t, "octet")] ^= byte(rapid.IntRange(1, 255).Draw(t, "flip"))
+			case 2:
+				d.Dst16 = true
+			case 3:
+				d.IP = []byte{255, 255, 255, 255}
+			default:
+				d.Port ^= 1 << uint(rapid.IntRange(0, 15).Draw(t, "bit"))
+			}
+			pool = append(pool, d)
+		}
+		n := rapid.IntRange(2, 8).Draw(t, "n")
+		for i := 0; i < n; i++ {
+			c.Dests = append(c.Dests, rapid.SampledFrom(pool).Draw(t, "dest"))
+		}
+		c.Lens = rapid.SliceOfN(rapid.SampledFrom([]int{0, 1, 2, 3, 35, 240, 300, 301, 548, 1500}), 1, 4).Draw(t, "lens")
+		return c
+	})
+}
+
+func TestC18_WriteSequencesRapid(t *testing.T) { c18seq.rapidCheck(t, genC18Seq()) }
